@@ -33,10 +33,10 @@ BUDGET = {'quick': 40, 'thorough': 400}
 QUOTA = {'quick': 40, 'thorough': 1300}
 REQUIRED = {'quick': {'evaluations': 8000, 'explicit_index_queries': 5000, 'multi_section_name_queries': 1000,
                       'malformed_rejected': 300, 'info_only_compared': 400, 'noise_data_info_only': 400,
-                      'declared_length_streams': 100, 'cells_edition_sec2': 6},
+                      'declared_length_streams': 100, 'cells_edition_sec2': 6, 'category11_messages_in_info_only_streams': 50},
             'thorough': {'evaluations': 200000, 'explicit_index_queries': 150000, 'multi_section_name_queries': 30000,
                          'malformed_rejected': 8000, 'info_only_compared': 15000, 'noise_data_info_only': 15000,
-                         'declared_length_streams': 3000, 'cells_edition_sec2': 6}}
+                         'declared_length_streams': 3000, 'cells_edition_sec2': 6, 'category11_messages_in_info_only_streams': 1500}}
 
 MALFORMED = ['length', ' length', 'x%length', '%a.length', '%1x.length', '%.length', '%-.length', '%x1.edition',
              '0.length', '$length', '%one.n_subsets', '% .length', '%1,0.length']
@@ -192,7 +192,18 @@ def declared_length_stream(ctx, dec, rng, k):
     parts = []
     want = []
     for j in range(rng.randint(1, 3)):
-        msg = streams.small_message(rng, k + j)
+        # metadata-only scanning never looks at the data, whatever the data category says (11 = table definitions)
+        cat = rng.choice([0, 11, 11, 2, 255])
+        if cat == 11:
+            ctx.count('category11_messages_in_info_only_streams')
+        msg = streams.small_message(rng, k + j, data_category=cat)
+        if rng.random() < 0.4:
+            B33, D33 = cases.tables(33)
+            try:
+                msg = R.build_message([1001, 101000, 31001, 12001], B33, D33, R.Policy(rng), rng.choice([1, 2, 3]), False,
+                                      rng.choice([2, 3, 4]), dict(data_category=cat, update_sequence_number=(k + j) % 256))
+            except R.Unsupported:
+                pass
         fr = R.parse_frame(msg.bytes)
         extra = rng.choice([0, 1, 2, 3, 6])
         secs = frame_sections(fr)
